@@ -28,6 +28,9 @@ typedef struct rt_scenario_s {
 	void (*dump_state) (FILE *f);             /* one JSON value with scenario state for a witness (may be NULL) */
 	int (*adversary) (int self, int forced, const int *runnable, int n); /* Mode B: optional scheduling adversary: self = thread at
 	                                             the scheduling point (or -1), forced = it yields; returns tid to run or -1 for "no opinion" */
+	void (*idle_check) (void);                /* Mode B: called when NO thread is runnable and only pending deadlines can make progress
+	                                             (the instant before the scheduler advances the clock): every sleeping thread must be
+	                                             legitimately asleep at that instant (may be NULL) */
 } rt_scenario;
 extern rt_scenario rt_scen;
 
@@ -86,7 +89,9 @@ int rt_thread_blocked (int tid);      /* valid after rt_wait_quiescent() returne
 int rt_thread_done (int tid);
 int rt_thread_in_wait (int tid);      /* hint, usable at any time: tid is inside a (modelled or real) futex wait */
 const char *rt_thread_op (int tid);
-const char *rt_thread_at (int tid);   /* nsync function of tid's last atomic step outside the semaphore files ("" if none) */
+const char *rt_thread_at (int tid);
+const volatile void *rt_thread_lock_addr (int tid);   /* address of the mutex word of tid's last CAS inside nsync_mu_lock_slow_ */
+int rt_thread_timed (int tid);        /* Mode B: tid's current sleep has a timer */   /* nsync function of tid's last atomic step outside the semaphore files ("" if none) */
 
 /* ---- word watching (shim after-hook) ------------------------------------------------- */
 typedef void (*rt_word_cb) (int idx, int op, uint32_t old_v, uint32_t new_v, int ok);
